@@ -2,6 +2,7 @@
 import Driver.OpsPath
 import Driver.OpsKey
 import Driver.OpsLeaf
+import Driver.OpsMutate
 namespace Mxj.Drv
 
 def dispatch (op : String) (args : List String) : Out :=
@@ -14,6 +15,9 @@ def dispatch (op : String) (args : List String) : Out :=
   | "pfk" => runP opPfk args
   | "hsk" => runP opHsk args
   | "leaf" => runP opLeaf args
+  | "setv" => runP opSetv args
+  | "remove" => runP opRemove args
+  | "rename" => runP opRename args
   | _ => "bad-op"
 
 end Mxj.Drv
